@@ -405,4 +405,58 @@ theorem callWhy_none_sound (cm : ClassMap) (protos : List Proto) (c : CallSite) 
         · exact Or.inl rfl
         · exact Or.inr (hk hu)
 
+/-! ### the option setter / getter model -/
+
+theorem lookupVal_mem (k : Name) (d : List (Name × Int)) (v : Int) (h : lookupVal k d = some v) : (k, v) ∈ d := by
+  induction d with
+  | nil => simp [lookupVal] at h
+  | cons e r ih =>
+    obtain ⟨k', v'⟩ := e
+    simp only [lookupVal] at h
+    split at h
+    · rename_i hk
+      have := (nameEq_iff _ _).1 hk
+      simp at h; subst h; subst this; simp
+    · exact List.mem_cons_of_mem _ (ih h)
+
+/-- if values are pairwise distinct, the getter returns the name stored with the value -/
+theorem getOpt_of_mem (d : List (Name × Int)) (n : Name) (v : Int) (hm : (n, v) ∈ d)
+    (hd : d.Pairwise (fun a b => a.2 ≠ b.2)) : getOpt d v = some n := by
+  induction d with
+  | nil => cases hm
+  | cons e r ih =>
+    obtain ⟨n', v'⟩ := e
+    simp only [getOpt]
+    rcases List.mem_cons.1 hm with h | h
+    · cases h; simp
+    · have hne : v' ≠ v := (List.pairwise_cons.1 hd).1 (n, v) h
+      have : (v' == v) = false := by simpa using hne
+      rw [this]; simp only [Bool.false_eq_true, if_false]
+      exact ih h (List.pairwise_cons.1 hd).2
+
+/-- **last write wins**: the field after any history of assignments followed by a successful one is what that last
+    assignment stores on a fresh field — the result does not depend on what was set before -/
+theorem assignAll_last (lc : Bool) (strip : List Nat) (d : List (Name × Int)) (c0 c1 : Int) (hist : List OptArg) (a : OptArg)
+    (v : Int) (h : setOpt lc strip d a = some v) :
+    assignAll lc strip d c0 (hist ++ [a]) = v ∧ assign lc strip d c1 a = v := by
+  constructor
+  · induction hist generalizing c0 with
+    | nil => simp [assignAll, assign, h]
+    | cons x r ih => simp only [List.cons_append, assignAll]; exact ih _
+  · simp [assign, h]
+
+/-- **set then get**: a string the setter accepts stores the dictionary value of its normal form, and — values being
+    pairwise distinct — the getter returns that normal form (the dictionary's spelling of the name) -/
+theorem set_then_get (lc : Bool) (strip : List Nat) (d : List (Name × Int)) (s : Name) (v : Int)
+    (h : setOpt lc strip d (.str s) = some v) (hd : d.Pairwise (fun a b => a.2 ≠ b.2)) :
+    (normIn lc strip s, v) ∈ d ∧ getOpt d v = some (normIn lc strip s) := by
+  have hm := lookupVal_mem _ _ _ (by simpa [setOpt] using h)
+  exact ⟨hm, getOpt_of_mem d _ v hm hd⟩
+
+/-- an integer argument is stored as it is, and an unknown string leaves the field unchanged -/
+theorem assign_int_and_unknown (lc : Bool) (strip : List Nat) (d : List (Name × Int)) (cur v : Int) (s : Name)
+    (hs : lookupVal (normIn lc strip s) d = none) :
+    assign lc strip d cur (.int v) = v ∧ assign lc strip d cur (.str s) = cur := by
+  simp [assign, setOpt, hs]
+
 end RV.Layout
